@@ -97,13 +97,23 @@ func Check(r *vrep.Report, callsV []uni.Call, tsos []uni.TSOEvent, recs []*work.
 	sort.SliceStable(calls, func(i, j int) bool { return calls[i].Seq < calls[j].Seq })
 	sort.SliceStable(tsos, func(i, j int) bool { return tsos[i].Seq < tsos[j].Seq })
 	viol := func(rule, msg string, c ...*uni.Call) {
-		var tr []string
+		var tr, hist []string
+		var txn uint64
 		for _, x := range c {
 			if x != nil {
 				tr = append(tr, x.String())
+				txn = x.StartTS
 			}
 		}
-		r.Violate("rule"+rule, label+": "+msg, map[string]any{"scenario": label, "calls": tr})
+		if txn != 0 {
+			// the whole request history of that transaction (every client), as the witness
+			for _, x := range calls {
+				if x.StartTS == txn && len(hist) < 80 {
+					hist = append(hist, fmt.Sprintf("#%d..%d c%d %s %s err=%q regErr=%v :: %s => %s", x.Seq, x.RetSeq, x.Client, x.Cmd, x.Action, x.Err, x.RegionErr != nil, brief(x.Req), brief(x.Resp)))
+				}
+			}
+		}
+		r.Violate("rule"+rule, label+": "+msg, map[string]any{"scenario": label, "calls": tr, "txn_history": hist})
 	}
 	// newest TSO issued to a client before seq
 	perClient := map[int][]uni.TSOEvent{}
@@ -164,6 +174,40 @@ func Check(r *vrep.Report, callsV []uni.Call, tsos []uni.TSOEvent, recs []*work.
 			continue
 		}
 		r.Eval(1)
+		{
+			// fingerprint of the transaction's trace shape: commands with their outcome class, in order
+			var shape []string
+			for _, c := range calls {
+				if c.StartTS != v.start {
+					continue
+				}
+				switch c.Cmd {
+				case tikvrpc.CmdPrewrite, tikvrpc.CmdCommit, tikvrpc.CmdBatchRollback, tikvrpc.CmdPessimisticLock, tikvrpc.CmdPessimisticRollback,
+					tikvrpc.CmdCheckTxnStatus, tikvrpc.CmdCheckSecondaryLocks, tikvrpc.CmdResolveLock, tikvrpc.CmdTxnHeartBeat, tikvrpc.CmdCleanup:
+					o := "ok"
+					switch {
+					case c.Err != "":
+						o = "neterr"
+					case c.RegionErr != nil:
+						o = "regerr"
+					case !ok(c):
+						o = "open"
+					}
+					own := "o"
+					if c.Client != v.owner {
+						own = "x"
+					}
+					shape = append(shape, fmt.Sprintf("%s%s:%s:%s", own, c.Cmd, c.Action, o))
+				}
+			}
+			if len(shape) > 1 {
+				fp := fmt.Sprint(shape)
+				r.Distinct(fp)
+				if r.SampleN() < 5 && (len(shape) > 4 || r.SampleN() == 0) {
+					r.Sample(map[string]any{"scenario": label, "txn": v.start, "trace_shape": shape})
+				}
+			}
+		}
 		// union of prewritten keys (latest request per key wins for rule 11)
 		type mut struct {
 			m    *kvrpcpb.Mutation
@@ -222,7 +266,20 @@ func Check(r *vrep.Report, callsV []uni.Call, tsos []uni.TSOEvent, recs []*work.
 		// rule 8: the primary is one of the locked mutations
 		if len(v.prewrites) > 0 {
 			r.Count("rule8_evaluated", 1)
-			if !hasKey(lockedKeys, primary) {
+			// a transaction whose mutations are all non-locking existence checks locks nothing: vacuous
+			locked := lockedKeys
+			if opt.CheckBuffer && v.rec != nil {
+				// the model knows every key the commit locks, also when the client died before all batches were sent
+				locked = nil
+				for k, e := range ExpectedMutations(v.rec) {
+					if e.Op != kvrpcpb.Op_CheckNotExists {
+						locked = append(locked, []byte(k))
+					}
+				}
+			} else if v.rec != nil && v.rec.CommitClass != work.ENone {
+				locked = nil
+			}
+			if len(locked) > 0 && !hasKey(locked, primary) {
 				viol("8:primary-not-locked", fmt.Sprintf("txn %d: primary %q is not among the locked mutations %q", v.start, primary, lockedKeys), v.prewrites[0])
 			}
 		}
@@ -277,13 +334,27 @@ func Check(r *vrep.Report, callsV []uni.Call, tsos []uni.TSOEvent, recs []*work.
 				continue
 			}
 			r.Count("rule3_evaluated", 1)
+			// primary commit attempts sent before the rollback: the rollback is legitimate only if the store
+			// refused every one of them (region error) or some attempt got a definite failure answer (key error)
+			// before the rollback was sent - an earlier unanswered attempt cannot take effect after that answer
+			var sent, unrefused []*uni.Call
+			definite := false
 			for _, cm := range v.commits {
 				if cm.Seq < rb.Seq && hasKey(cm.Req.(*kvrpcpb.CommitRequest).Keys, primary) {
-					if !(commitDefiniteFail(cm) && cm.RetSeq < rb.Seq) {
-						viol("3:rollback-after-primary-commit-sent", fmt.Sprintf("txn %d: BatchRollback sent (seq %d) although the primary Commit (seq %d) had been sent without a definite failure answer", v.start, rb.Seq, cm.Seq), cm, rb)
+					sent = append(sent, cm)
+					answered := cm.RetSeq != 0 && cm.RetSeq < rb.Seq
+					if answered && commitDefiniteFail(cm) {
+						definite = true
+					}
+					if !(answered && cm.Err == "" && cm.RegionErr != nil) {
+						unrefused = append(unrefused, cm)
 					}
 				}
 			}
+			if len(unrefused) > 0 && !definite {
+				viol("3:rollback-after-primary-commit-sent", fmt.Sprintf("txn %d: BatchRollback sent (seq %d) although the primary Commit (seq %d) had been sent without a definite failure answer", v.start, rb.Seq, unrefused[0].Seq), unrefused[0], rb)
+			}
+			_ = sent
 			if asyncEffective || onePCts != 0 {
 				all := len(lockedKeys) > 0
 				for _, k := range lockedKeys {
@@ -353,9 +424,21 @@ func Check(r *vrep.Report, callsV []uni.Call, tsos []uni.TSOEvent, recs []*work.
 			}
 			r.Count("rule9_evaluated", 1)
 			var want [][]byte
-			for _, k := range lockedKeys {
-				if !bytes.Equal(k, primary) {
-					want = append(want, k)
+			if opt.CheckBuffer && v.rec != nil {
+				// the driver's model of the buffer says which keys get locked, also when the client died mid-prewrite
+				for k, e := range ExpectedMutations(v.rec) {
+					if e.Op != kvrpcpb.Op_CheckNotExists && !bytes.Equal([]byte(k), primary) {
+						want = append(want, []byte(k))
+					}
+				}
+				sort.Slice(want, func(i, j int) bool { return bytes.Compare(want[i], want[j]) < 0 })
+			} else if v.rec != nil && v.rec.CommitClass != work.ENone {
+				continue // the prewrite phase may be incomplete: the union of prewritten keys says nothing
+			} else {
+				for _, k := range lockedKeys {
+					if !bytes.Equal(k, primary) {
+						want = append(want, k)
+					}
 				}
 			}
 			got := append([][]byte(nil), req.Secondaries...)
@@ -436,7 +519,8 @@ func Check(r *vrep.Report, callsV []uni.Call, tsos []uni.TSOEvent, recs []*work.
 			}
 		}
 		// rule 11: union of prewritten mutations = the driver's model of the buffer
-		if opt.CheckBuffer && v.rec != nil && len(v.prewrites) > 0 {
+		// (only when Commit returned nil: a failed or crashed commit may stop before every batch was prewritten)
+		if opt.CheckBuffer && v.rec != nil && len(v.prewrites) > 0 && v.rec.EndKind == "commit" && v.rec.EndRetSeq != 0 && v.rec.CommitClass == work.ENone {
 			r.Count("rule11_evaluated", 1)
 			exp := ExpectedMutations(v.rec)
 			for k, e := range exp {
@@ -477,8 +561,9 @@ func Check(r *vrep.Report, callsV []uni.Call, tsos []uni.TSOEvent, recs []*work.
 		rollback  bool            // a response said rolled back / expired / secondary missing
 		minCommit uint64          // running max of min-commit ts over primary + secondaries (async)
 		asyncSeen bool
-		ttlShown  uint64
+		ttlShown  uint64 // smallest non-zero ttl the client was shown for a lock of this txn
 		shown     bool
+		shownZero bool // the client was shown a lock of this txn with ttl 0 ("roll back unconditionally")
 	}
 	st := map[ck]*status{}
 	get := func(c int, t uint64) *status {
@@ -517,7 +602,9 @@ func Check(r *vrep.Report, callsV []uni.Call, tsos []uni.TSOEvent, recs []*work.
 		}
 		s := get(client, li.LockVersion)
 		s.shown = true
-		if li.LockTtl > s.ttlShown {
+		if li.LockTtl == 0 {
+			s.shownZero = true
+		} else if s.ttlShown == 0 || li.LockTtl < s.ttlShown {
 			s.ttlShown = li.LockTtl
 		}
 	}
@@ -634,14 +721,14 @@ func Check(r *vrep.Report, callsV []uni.Call, tsos []uni.TSOEvent, recs []*work.
 			s := get(c.Client, req.LockTs)
 			newest := newestTSO(c.Client, c.Seq)
 			if req.CurrentTs == math.MaxUint64 {
-				if !inGC(c.Seq) && !(s.shown && s.ttlShown == 0) {
+				if !inGC(c.Seq) && !s.shownZero {
 					viol("5:current-ts-max-outside-gc", fmt.Sprintf("client %d: CheckTxnStatus(txn %d) with current_ts=MaxUint64 outside GC for a lock that was not shown with ttl 0", c.Client, req.LockTs), c)
 				}
 			} else {
 				if newest != 0 && req.CurrentTs > newest {
 					viol("5:current-ts-ahead-of-clock", fmt.Sprintf("client %d: CheckTxnStatus(txn %d) current_ts %d is above the newest timestamp %d issued to that client", c.Client, req.LockTs, req.CurrentTs, newest), c)
 				}
-				if req.RollbackIfNotExist && s.shown && newest != 0 && !inGC(c.Seq) {
+				if req.RollbackIfNotExist && s.shown && !s.shownZero && s.ttlShown != 0 && newest != 0 && !inGC(c.Seq) {
 					if oracle.ExtractPhysical(newest) < oracle.ExtractPhysical(req.LockTs)+int64(s.ttlShown) {
 						viol("5:rollback-if-not-exist-before-expiry", fmt.Sprintf("client %d: CheckTxnStatus(txn %d) sets rollback_if_not_exist although the lock (ttl %d) has not outlived its ttl on the resolver's clock (newest ts %d)", c.Client, req.LockTs, s.ttlShown, newest), c)
 					}
@@ -671,6 +758,14 @@ func Check(r *vrep.Report, callsV []uni.Call, tsos []uni.TSOEvent, recs []*work.
 	}
 	r.Count("rpcs_monitored", len(calls))
 	r.Count("txns_monitored", len(views))
+}
+
+func brief(m any) string {
+	s := fmt.Sprintf("%v", m)
+	if len(s) > 260 {
+		s = s[:260] + "..."
+	}
+	return s
 }
 
 func keysOf(m map[uint64]bool) []uint64 {
